@@ -724,31 +724,37 @@ class ZInt(z3.ArithRef):
     __hash__ = z3.ArithRef.__hash__
 
 
-def forall_intro(vc, name, lo, hi, body, steps=None):
-    """universal generalisation: body(r0) is proved (obligation lemma-step[name]) for a FRESH r0 constrained only by
-    lo <= r0 < hi, with the help of the ghost steps `steps(r0)` (cuts / lemma instances about r0); then forall r in [lo, hi)
-    body(r) is used.  What was assumed about r0 is dropped again."""
-    r0 = vc.fresh_int('gen_r')
-    mark = len(vc.pc)
-    vc.assume(lo <= r0, r0 < hi)
-    if steps is not None:
-        steps(r0)
-    vc.oblige('lemma-step[%s (at a generic index)]' % name, body(r0))
-    del vc.pc[mark:]
-    vc.assume(forall_range(lo, hi, body, 'r'))
-
-
-def cut_qf(vc, name, fact):
-    """ghost assertion proved from the QUANTIFIER-FREE part of the path condition only (a stronger statement than the plain cut:
-    fewer hypotheses), for arithmetic steps that the solver loses among the quantified facts"""
-    from pyvc.core import _has_quantifier
+def fcut(vc, name, goal, hyps):
+    """focused ghost assertion: `goal` is proved from the NAMED hypotheses only (each must be, syntactically, a fact on the
+    path condition - otherwise the proof script is wrong and the run is undecided), then used.  Fewer hypotheses = a stronger
+    statement, so this is sound; it keeps every solver query of a long proof script small."""
+    for h in hyps:
+        if not any(z3.eq(h, p) for p in vc.pc):
+            raise OutOfSubset('proof script: a hypothesis of step %r is not on the path condition' % name)
     full = vc.pc
-    vc.pc = [p for p in full if not _has_quantifier(p)]
+    vc.pc = list(hyps)
     try:
-        vc.oblige('lemma-step[%s]' % name, fact)
+        vc.oblige('lemma-step[%s]' % name, goal)
     finally:
         vc.pc = full
-    vc.assume(fact)
+    vc.assume(goal)
+    return goal
+
+
+def forall_intro(vc, name, lo, hi, body, steps, var='i'):
+    """universal generalisation: steps(r0, rng) must establish body(r0) for a FRESH r0 about which only rng = [lo <= r0, r0 < hi]
+    is assumed (ghost steps: fcut / lemma instances); then forall r in [lo, hi). body(r) is used and returned.  Everything
+    assumed or derived about r0 is dropped again."""
+    r0 = vc.fresh_int('gen_' + var)
+    mark = len(vc.pc)
+    rng = [lo <= r0, r0 < hi]
+    vc.assume(*rng)
+    steps(r0, rng)
+    fcut(vc, '%s (at a generic index)' % name, body(r0), [p for p in vc.pc[mark:]])
+    del vc.pc[mark:]
+    q = forall_range(lo, hi, body, var)
+    vc.assume(q)
+    return q
 
 
 def np_var(a, axis=None, ddof=0):
@@ -834,75 +840,100 @@ class GelmanRubin(Contract):
         vc.fin_bounds.extend([C, N])
         chains = SArr(Cell(lambda c, t: X(c, t), (ZInt(C), ZInt(N)), 'real'))
         s = ns(C=C, N=N, chains=chains, spec=RhatSpec(C, N), cell_elt=chains.cell.elt)
+        d = s.spec.defs()
+        s.R = dict(C=C >= 1, N=N >= 4, D_SM=d[0], D_SV=d[1], D_SG=d[2], D_SB=d[3], D_SS=d[4], W=s.spec.Wv > 0)
         return s, (chains,), {}
 
     def env(self, vc):
         return dict(np=np_module(var=np_var))
 
     def requires(self, s):
-        sp = s.spec
-        return [s.C >= 1, ('at least two draws per half chain (sample variance defined)', s.N >= 4)] + sp.defs() + \
-            [('within-sequence variance is positive (chains not all constant)', sp.Wv > 0)]
+        return [s.R['C'], ('at least two draws per half chain (sample variance defined)', s.R['N']), s.R['D_SM'], s.R['D_SV'], s.R['D_SG'], s.R['D_SB'], s.R['D_SS'],
+                ('within-sequence variance is positive (chains not all constant)', s.R['W'])]
 
     def hooks(self, s):
+        """The proof script.  Every step is a focused cut (fcut) over named hypotheses:
+        row sums (#0 mean, #1 mean inside var, #2 squared deviations) are tied to SM / SV row by row at a generic row r0,
+        the three sums over the 2C sequences (#3, #4, #5) to SG / SB / SS; LemmaSumExt / LemmaMonotoneCum instances do the sums."""
         sp = s.spec
         n, m = sp.n, sp.m
+        R_ = s.R
+        G0 = [R_['C'], R_['N']]
         sq = lambda v: v * v
+        H = s.H = {}
 
-        def row_is_split(vc, base, r0):
-            """base[r0, t] = x[r0 div 2, (r0 mod 2) * n + t] for all t < n (generic t0; the index arithmetic is a quantifier-free cut)"""
-            def tsteps(t0):
-                cut_qf(vc, 'split index arithmetic: (r n + t) div 2n = r div 2, (r n + t) mod 2n = (r mod 2) n + t',
-                       z3.And((r0 * n + t0) / (2 * n) == r0 / 2, (r0 * n + t0) % (2 * n) == z3.If(r0 % 2 == 0, t0, n + t0)))
-                cut_qf(vc, 'element (r, t) of the reshaped array', base.at(r0, t0) == sp.split(r0, t0))
-            forall_intro(vc, 'row r of the array given to mean / var is the r-th half chain', 0, n, lambda t: base.at(r0, t) == sp.split(r0, t), tsteps)
-
-        def row_sums(name, P, summand, k_base, insts=None):
+        def row_sums(k, name, P, D_P, summand, k_base, inst_of=None):
             def h(vc, rec):
                 a, ps = rec['arr'], rec['ps']
-                if a.ndim != 2 or rec.get('axis') != 1:
+                if a.ndim != 2 or rec.get('axis') != 1 or not rec.get('axioms'):
                     raise OutOfSubset('expected a row sum')
+                A_k = rec['axioms'][0]
                 base = vc.libcalls['np.sum'][k_base]['arr']
-                vc.cut('%s: one row per half chain, n columns' % name, z3.And(a.shape[0] == m, a.shape[1] == n))
+                shp = fcut(vc, '%s: one row per half chain, n = N div 2 columns' % name,
+                           z3.And(a.shape[0] == m, a.shape[1] == n, base.shape[0] == m, base.shape[1] == n), G0)
 
-                def steps(r0):
-                    row_is_split(vc, base, r0)
-                    for f in (insts(vc, r0) if insts else []):
-                        vc.cut('%s: instance of an established fact' % name, f)
-                    vc.cut('%s: summand of the code = summand of the definition' % name, forall_range(0, n, lambda t: a.at(r0, t) == summand(r0, t), 't'))
-                    vc.assume(use(stmt_sum_ext(n, lambda t: a.at(r0, t), lambda t: summand(r0, t), lambda k: ps(r0, k), lambda k: P(r0, k))))
-                forall_intro(vc, '%s: code row sum = definitional sum' % name, 0, m, lambda r: ps(r, n) == P(r, n), steps)
+                def steps(r0, rng_r):
+                    def t_split(t0, rng_t):
+                        f1 = fcut(vc, 'split index arithmetic: (r n + t) div 2n = r div 2, (r n + t) mod 2n = (r mod 2) n + t',
+                                  z3.And((r0 * n + t0) / (2 * n) == r0 / 2, (r0 * n + t0) % (2 * n) == z3.If(r0 % 2 == 0, t0, n + t0)), G0 + rng_r + rng_t)
+                        fcut(vc, 'element (r, t) of the reshaped array is x[r div 2, (r mod 2) n + t]', base.at(r0, t0) == sp.split(r0, t0), G0 + rng_r + rng_t + [f1])
+                    F_row = forall_intro(vc, 'row r of the array given to mean / var is the r-th half chain', 0, n, lambda t: base.at(r0, t) == sp.split(r0, t), t_split)
+                    if inst_of is None:
+                        F_sum = F_row                   # the array summed IS the base array and the summand IS the half chain
+                        if not z3.eq(F_sum, forall_range(0, n, lambda t: a.at(r0, t) == summand(r0, t), 'i')):
+                            raise OutOfSubset('proof script: the array summed is not the base array')
+                    else:
+                        i1 = fcut(vc, '%s: instance of the row-mean fact' % name, inst_of(vc, r0), [H[1]] + rng_r)
+
+                        def t_sum(t0, rng_t):
+                            i2 = fcut(vc, '%s: instance of the row fact' % name, base.at(r0, t0) == sp.split(r0, t0), [F_row] + rng_t)
+                            fcut(vc, '%s: summand at a generic index' % name, a.at(r0, t0) == summand(r0, t0), G0 + rng_r + rng_t + [i1, i2, shp])
+                        F_sum = forall_intro(vc, '%s: summand of the code = summand of the definition' % name, 0, n, lambda t: a.at(r0, t) == summand(r0, t), t_sum)
+                    d1 = fcut(vc, '%s: defining recursion of the definitional sum at this row' % name, prefix_def(lambda k_: P(r0, k_), n, lambda t: summand(r0, t)), [D_P] + rng_r)
+                    d2 = fcut(vc, '%s: recursion of the code sum at this row' % name, prefix_def(lambda k_: ps(r0, k_), n, lambda t: a.at(r0, t)), [A_k, shp] + rng_r)
+                    L = use(stmt_sum_ext(n, lambda t: a.at(r0, t), lambda t: summand(r0, t), lambda k_: ps(r0, k_), lambda k_: P(r0, k_)))
+                    vc.assume(L)            # LemmaSumExt
+                    fcut(vc, '%s: code row sum = definitional sum' % name, ps(r0, n) == P(r0, n), [L, d1, d2, F_sum] + G0)
+                H[k] = forall_intro(vc, '%s: code row sums = definitional sums, every row' % name, 0, m, lambda r: ps(r, n) == P(r, n), steps, var='r')
             return h
 
-        def vec_sum(name, P, summand, insts):
-            """1-D sum over the m sequences; the pointwise equality of the summands is proved at a generic index from explicit instances"""
+        def vec_sum(k, name, P, D_P, summand, insts, after=None):
             def h(vc, rec):
-                a = rec['arr']
-                vc.cut('%s: one entry per half chain' % name, a.shape[0] == m)
+                a, ps = rec['arr'], rec['ps']
+                if a.ndim != 1 or not rec.get('axioms'):
+                    raise OutOfSubset('expected a 1-d sum')
+                ax = list(rec['axioms'])
+                shp = fcut(vc, '%s: one entry per half chain' % name, a.shape[0] == m, G0)
 
-                def steps(r0):
-                    for f in insts(vc, r0):
-                        vc.cut('%s: instance of an established fact' % name, f)
-                    cut_qf(vc, '%s: summand at a generic index' % name, a.at(r0) == summand(r0))
-                forall_intro(vc, '%s: summand of the code = summand of the definition' % name, 0, m, lambda r: a.at(r) == summand(r), steps)
-                vc.assume(use(stmt_sum_ext(m, lambda i: a.at(i), summand, rec['ps'], P)))
-                vc.cut('%s: code sum = definitional sum' % name, T(rec['res']) == P(m))
+                def steps(r0, rng_r):
+                    ii = [fcut(vc, '%s: instance of an established fact' % name, f, hy + rng_r) for f, hy in insts(vc, r0)]
+                    fcut(vc, '%s: summand at a generic index' % name, a.at(r0) == summand(r0), G0 + rng_r + ii + [shp])
+                F_sum = forall_intro(vc, '%s: summand of the code = summand of the definition' % name, 0, m, lambda r: a.at(r) == summand(r), steps)
+                d2 = fcut(vc, '%s: recursion of the code sum' % name, prefix_def(ps, m, lambda i: a.at(i)), ax + [shp])
+                L = use(stmt_sum_ext(m, lambda i: a.at(i), summand, ps, P))
+                vc.assume(L)                # LemmaSumExt
+                H[k] = fcut(vc, '%s: code sum = definitional sum' % name, T(rec['res']) == P(m), [L, D_P, d2, F_sum, shp] + G0)
+                if after:
+                    after(vc)
             return h
         psn = lambda vc, k: vc.libcalls['np.sum'][k]['ps']
-        res = lambda vc, k: T(vc.libcalls['np.sum'][k]['res'])
 
-        def h4(vc, rec):
-            vec_sum('between-sequence sum of squares', SB, lambda r: sq(sp.mu(r) - sp.G),
-                    lambda vc, r0: [psn(vc, 0)(r0, n) == SM(r0, n), res(vc, 3) == SG(m)])(vc, rec)
-            vc.assume(use(stmt_monotone_cum(m, z3.IntVal(0), m, lambda r: sq(sp.mu(r) - sp.G), SB)))
-            vc.cut('a sum of squares is non-negative', SB(m) >= 0)
-        return {('np.sum', 0): row_sums('sequence means', SM, sp.split, 0),
-                ('np.sum', 1): row_sums('sequence means inside var', SM, sp.split, 1),
-                ('np.sum', 2): row_sums('squared deviations', SV, lambda r, t: sq(sp.split(r, t) - sp.mu(r)), 1,
-                                        lambda vc, r0: [psn(vc, 1)(r0, n) == SM(r0, n)]),
-                ('np.sum', 3): vec_sum('grand mean', SG, sp.mu, lambda vc, r0: [psn(vc, 0)(r0, n) == SM(r0, n)]),
-                ('np.sum', 4): h4,
-                ('np.sum', 5): vec_sum('within-sequence variance', SS, sp.s2, lambda vc, r0: [psn(vc, 2)(r0, n) == SV(r0, n)])}
+        def nonneg(vc):
+            v = lambda r: sq(sp.mu(r) - sp.G)
+            F_nn = forall_intro(vc, 'a square is non-negative', 0, m, lambda r: v(r) >= 0, lambda r0, rng: None)
+            L = use(stmt_monotone_cum(m, z3.IntVal(0), m, v, SB))
+            vc.assume(L)                    # LemmaMonotoneCum
+            H['SB>=0'] = fcut(vc, 'a sum of squares is non-negative', SB(m) >= 0, [L, F_nn, R_['D_SB']] + G0)
+        mean_inst = lambda k: (lambda vc, r0: [(psn(vc, k)(r0, n) == SM(r0, n), [H[k]])])
+        return {('np.sum', 0): row_sums(0, 'sequence means', SM, R_['D_SM'], sp.split, 0),
+                ('np.sum', 1): row_sums(1, 'sequence means inside var', SM, R_['D_SM'], sp.split, 1),
+                ('np.sum', 2): row_sums(2, 'squared deviations', SV, R_['D_SV'], lambda r, t: sq(sp.split(r, t) - sp.mu(r)), 1,
+                                        lambda vc, r0: psn(vc, 1)(r0, n) == SM(r0, n)),
+                ('np.sum', 3): vec_sum(3, 'grand mean', SG, R_['D_SG'], sp.mu, mean_inst(0)),
+                ('np.sum', 4): vec_sum(4, 'between-sequence sum of squares', SB, R_['D_SB'], lambda r: sq(sp.mu(r) - sp.G),
+                                       lambda vc, r0: mean_inst(0)(vc, r0) + [(H[3], [H[3]])], after=nonneg),
+                ('np.sum', 5): vec_sum(5, 'within-sequence variance', SS, R_['D_SS'], sp.s2,
+                                       lambda vc, r0: [(psn(vc, 2)(r0, n) == SV(r0, n), [H[2]])])}
 
     def ensures(self, s, result):
         sp = s.spec
